@@ -9,6 +9,7 @@
 package main
 
 import (
+	"encoding/base64"
 	"encoding/json"
 	"fmt"
 	"os"
@@ -25,13 +26,14 @@ import (
 // ---------------------------------------------------------------- case list (identical in parent and children)
 
 type caseDef struct {
-	Part   int      `json:"part"`             // 1 import matching, 2 words, 3 consequence of the shared-flag mismatch
-	Shard  *p1Shard `json:"shard,omitempty"`  // part 1
-	Cfg    *gcfg    `json:"cfg,omitempty"`    // part 2
-	Prefix []int    `json:"prefix,omitempty"` // part 2: first operations of every word of the case
-	Depth  int      `json:"depth,omitempty"`  // part 2: word length
-	Engine string   `json:"engine,omitempty"` // part 3
-	BCfg   *bcfg    `json:"bcfg,omitempty"`   // part 4
+	Part   int       `json:"part"`             // 1 import matching, 2 words, 3 consequence of the shared-flag mismatch
+	Shard  *p1Shard  `json:"shard,omitempty"`  // part 1
+	Cfg    *gcfg     `json:"cfg,omitempty"`    // part 2
+	Prefix []int     `json:"prefix,omitempty"` // part 2: first operations of every word of the case
+	Depth  int       `json:"depth,omitempty"`  // part 2: word length
+	Engine string    `json:"engine,omitempty"` // part 3
+	BCfg   *bcfg     `json:"bcfg,omitempty"`   // part 4
+	RShard *p1bShard `json:"rshard,omitempty"` // part 6 (= part 1b: import matching against re-exports)
 }
 
 var p2Configs = []gcfg{{"EI", false}, {"EIJ", false}, {"EI", true}, {"EIJ", true}}
@@ -61,6 +63,13 @@ func buildCases(tier string, u *universe) (cs []caseDef) {
 	}
 	for _, en := range engineNames {
 		cs = append(cs, caseDef{Part: 3, Engine: en})
+	}
+	for _, en := range engineNames {
+		cs = append(cs, caseDef{Part: 7, Engine: en})
+	}
+	for _, s := range p1bShards() {
+		s := s
+		cs = append(cs, caseDef{Part: 6, RShard: &s})
 	}
 	for a := range p5Alphabet() {
 		d := 3
@@ -104,18 +113,18 @@ func buildCases(tier string, u *universe) (cs []caseDef) {
 // ---------------------------------------------------------------- child side
 
 type caseResult struct {
-	Evals    int64            `json:"evals"`
-	Steps    int64            `json:"steps,omitempty"`
-	NA       int64            `json:"na,omitempty"`
-	Reads    int64            `json:"reads,omitempty"`
-	EngCmp   int64            `json:"engcmp,omitempty"`
-	Outcomes map[string]int64 `json:"outcomes"`
-	States   []uint64         `json:"states,omitempty"`
-	Trans    []uint64         `json:"trans,omitempty"`
-	Pairs    []uint64         `json:"pairs,omitempty"` // part 1: distinct (current export type, import type) pairs
+	Evals    int64             `json:"evals"`
+	Steps    int64             `json:"steps,omitempty"`
+	NA       int64             `json:"na,omitempty"`
+	Reads    int64             `json:"reads,omitempty"`
+	EngCmp   int64             `json:"engcmp,omitempty"`
+	Outcomes map[string]int64  `json:"outcomes"`
+	States   []uint64          `json:"states,omitempty"`
+	Trans    []uint64          `json:"trans,omitempty"`
+	Pairs    []uint64          `json:"pairs,omitempty"` // part 1: distinct (current export type, import type) pairs
 	Viols    []json.RawMessage `json:"viols,omitempty"`
-	Flaky    []string         `json:"flaky,omitempty"`
-	Sample   any              `json:"sample,omitempty"`
+	Flaky    []string          `json:"flaky,omitempty"`
+	Sample   any               `json:"sample,omitempty"`
 }
 
 type p1Viol struct {
@@ -194,6 +203,42 @@ func (cs *childState) runCase(cd caseDef) caseResult {
 			b, _ := json.Marshal(v)
 			res.Viols = append(res.Viols, b)
 		}
+	case 7:
+		oc, evals, vs := runP7(cd.Engine)
+		res.Evals = evals
+		for k, v := range oc {
+			res.Outcomes[k] = v
+		}
+		for _, v := range vs {
+			b, _ := json.Marshal(v)
+			res.Viols = append(res.Viols, b)
+		}
+	case 6:
+		if cs.p1 == nil {
+			cs.p1 = newP1Env(cs.u)
+		}
+		pairs := map[uint64]struct{}{}
+		cases := cs.u.p1bCases(*cd.RShard)
+		cs.p1.runP1bShard(*cd.RShard, engineNames, cases, func(c p1bCase, engine string, r p1Result) {
+			res.Evals++
+			outcome, sig, what := p1bJudge(c, engine, r)
+			res.Outcomes["p1b:"+outcome]++
+			pairs[h64(fmt.Sprintf("re|%s|%d|%s|%s", c.Shard.Layout, c.Shard.Chain, c.Name, c.Import))] = struct{}{}
+			if sig == "" {
+				return
+			}
+			if !cs.confirmed["6|"+engine+"|"+sig] {
+				if _, sig2, _ := p1bJudge(c, engine, replayP1b(cs.u, c, engine)); sig2 != sig {
+					res.Flaky = append(res.Flaky, fmt.Sprintf("part1b %s: %s not reproduced in a fresh runtime (%q)", sig, what, sig2))
+					return
+				}
+				cs.confirmed["6|"+engine+"|"+sig] = true
+			}
+			b, _ := json.Marshal(map[string]any{"sig": sig, "what": what, "case": c, "engine": engine})
+			res.Viols = append(res.Viols, b)
+		})
+		res.Pairs = setKeys(pairs)
+		res.Sample = map[string]any{"part": "1b", "layout": cd.RShard.Layout, "chain": cd.RShard.Chain, "pairs": len(pairs)}
 	case 5:
 		if cs.p5 == nil {
 			cs.p5 = newP5Env()
@@ -372,6 +417,13 @@ func (e *p1Env) runShardFiltered(s p1Shard, engine string, c p1Case, each func(r
 	e.runShardWith(s, []string{engine}, func() []p1Case { return []p1Case{only} }, func(_ p1Case, _ string, r p1Result) { each(r) })
 }
 
+func replayP1b(u *universe, c p1bCase, engine string) (got p1Result) {
+	e := newP1Env(u)
+	defer e.close()
+	e.runP1bShard(c.Shard, []string{engine}, []p1bCase{c}, func(_ p1bCase, _ string, r p1Result) { got = r })
+	return
+}
+
 func doReplay(file string) {
 	b, err := os.ReadFile(file)
 	if err != nil {
@@ -430,6 +482,28 @@ func doReplay(file string) {
 		for _, v := range vs {
 			fmt.Printf("  STILL FAILS: %s: %s\n", v.Sig, v.What)
 			failed = true
+		}
+	case 7:
+		for _, en := range engineNames {
+			_, n, vs := runP7(en)
+			fmt.Printf("[%s] %d scenario evaluations\n", en, n)
+			for _, v := range vs {
+				fmt.Printf("  STILL FAILS: %s: %s\n", v.Sig, v.What)
+				failed = true
+			}
+		}
+	case 6:
+		var r struct {
+			Case p1bCase `json:"case"`
+		}
+		json.Unmarshal(doc.Replay, &r)
+		for _, en := range engineNames {
+			res := replayP1b(newUniverse("quick"), r.Case, en)
+			fmt.Printf("[%s] accepted=%v err=%q use=%s\n", en, res.Accepted, res.Err, res.Probe)
+			if _, sig, what := p1bJudge(r.Case, en, res); sig != "" {
+				fmt.Printf("  STILL FAILS: %s: %s\n", sig, what)
+				failed = true
+			}
 		}
 	case 5:
 		var r p5Viol
@@ -541,9 +615,9 @@ func main() {
 		fw.ChildLoop(func(i int) string {
 			b, err := json.Marshal(cs.runCase(cases[i]))
 			if err != nil {
-				return `{"flaky":["marshal: ` + err.Error() + `"]}`
+				b, _ = json.Marshal(caseResult{Flaky: []string{"marshal: " + err.Error()}})
 			}
-			return string(b)
+			return base64.StdEncoding.EncodeToString(b) // the child protocol rewrites "\n" sequences, which JSON strings may contain
 		})
 		return
 	}
@@ -631,6 +705,10 @@ func main() {
 					desc = fmt.Sprintf("words of %s starting with %s %s", cd.Cfg, ops[cd.Prefix[0]].Name, ops[cd.Prefix[1]].Name)
 					sig = "crash:p2:" + ops[cd.Prefix[0]].Name + ":" + ops[cd.Prefix[1]].Name
 				}
+				if cd.Part == 6 {
+					desc = fmt.Sprintf("part 1b layout %s chain %d", cd.RShard.Layout, cd.RShard.Chain)
+					sig = "crash:part1b"
+				}
 				if cd.Part == 5 {
 					st := p5Alphabet()[cd.Prefix[0]]
 					desc = fmt.Sprintf("part 5 words starting with %s", st)
@@ -646,7 +724,11 @@ func main() {
 				return
 			}
 			var r caseResult
-			if err := json.Unmarshal([]byte(res), &r); err != nil {
+			raw, err := base64.StdEncoding.DecodeString(res)
+			if err != nil {
+				fw.Fatalf("case %d: bad child result encoding: %v", i, err)
+			}
+			if err := json.Unmarshal(raw, &r); err != nil {
 				fw.Fatalf("case %d: bad child result: %v", i, err)
 			}
 			absorb(cd, r)
@@ -720,7 +802,7 @@ func main() {
 			"instantiated graph (no state merging during execution); steps whose instance is already closed are counted separately as not_applicable_steps and are not transitions",
 		Samples: samples.List(), Exhaustive: true, Outcomes: om, Bounds: bounds,
 		Extra: map[string]any{
-			"part1_instantiations": p1Evals, "part1_distinct_type_pairs": len(pairs),
+			"part1_instantiations": p1Evals, "part1b_layouts": p1bLayoutNames, "part1_distinct_type_pairs": len(pairs),
 			"part2_word_executions": p2Evals, "part4_word_executions": p4Evals, "part4_steps": p4Steps, "part5_word_executions": p5Evals, "part5_steps": p5Steps, "parts245_distinct_state_op_pairs": len(trans), "parts245_not_applicable_steps": na,
 			"parts245_reads_compared_with_model": reads, "parts245_engine_lockstep_comparisons": engcmp, "child_crashes": crashes, "watchdog_reruns": len(retry),
 			"cases": len(cases), "cases_completed": done,
